@@ -1613,17 +1613,37 @@ fn check_struct_union_members(
     }
 }
 
+/// An `always_ff` clock / reset that names a module variable the context does
+/// not know yet is a use before its declaration.  Without a diagnostic the
+/// declaration is silently dropped from the IR while the emitter still walks
+/// it and trusts the type checks that were skipped here.
+fn report_undefined_event_signal(
+    context: &mut Context,
+    path: &HierarchicalIdentifier,
+    token: TokenRange,
+) {
+    if let Ok(symbol) = symbol_table::resolve(path)
+        && let SymbolKind::Variable(x) = &symbol.found.kind
+        && x.affiliation == Affiliation::Module
+    {
+        context.insert_error(AnalyzerError::referring_before_definition(
+            &symbol.found.token.to_string(),
+            &token,
+        ));
+    }
+}
+
 pub fn eval_clock(context: &mut Context, value: &AlwaysFfDeclaration) -> IrResult<ir::FfClock> {
     let token: TokenRange = value.into();
 
     if let Some(x) = &value.always_ff_declaration_opt {
-        let path = x
+        let hier = x
             .always_ff_event_list
             .always_ff_clock
             .hierarchical_identifier
             .as_ref();
 
-        let path: VarPathSelect = Conv::conv(context, path)?;
+        let path: VarPathSelect = Conv::conv(context, hier)?;
         let (path, select, token) = path.into();
 
         if let Some((id, comptime)) = context.find_path(&path) {
@@ -1649,6 +1669,7 @@ pub fn eval_clock(context: &mut Context, value: &AlwaysFfDeclaration) -> IrResul
                 comptime,
             })
         } else {
+            report_undefined_event_signal(context, hier, token);
             Err(ir_error!(token))
         }
     } else if let Some((x, id)) = context.get_default_clock() {
@@ -1677,8 +1698,8 @@ pub fn eval_reset(
     if let Some(x) = &value.always_ff_declaration_opt
         && let Some(x) = &x.always_ff_event_list.always_ff_event_list_opt
     {
-        let path = x.always_ff_reset.hierarchical_identifier.as_ref();
-        let path: VarPathSelect = Conv::conv(context, path)?;
+        let hier = x.always_ff_reset.hierarchical_identifier.as_ref();
+        let path: VarPathSelect = Conv::conv(context, hier)?;
         let (path, select, token) = path.into();
 
         if let Some((id, comptime)) = context.find_path(&path) {
@@ -1704,6 +1725,7 @@ pub fn eval_reset(
                 comptime,
             }))
         } else {
+            report_undefined_event_signal(context, hier, token);
             Err(ir_error!(token))
         }
     } else if let Some((x, id)) = context.get_default_reset() {
